@@ -214,6 +214,8 @@ def dump(tok, symidx=None) -> str:
     if s in TYPED_KEYWORD and n >= 2:
         t = ''.join(x.source for x in tok[1:]).replace(' ', '')
         return f'(T{s} {dump(tok[0])} {t})'
+    if s == '=>' and n == 3:
+        return f'(A=> {dump(tok[0])} {dump(tok[1])} {dump(tok[2])})'
     if n == 1:
         return f'(P{s} {dump(tok[0])})'
     if n == 2:
@@ -286,7 +288,7 @@ def _eval(node, func):
 def analyse(func) -> dict:
     """what a led/nud function does, read from its source"""
     fdef = _src_ast(func)
-    info = {'expr': [], 'advance': [], 'seqtype': False, 'guards': [], 'expected_next': [],
+    info = {'expr': [], 'advance': [], 'seqtype': False, 'guards': [], 'expected_next': [], 'expected': [],
             'empty_check': False, 'first_advance': False, 'calls': [], 'line': func.__code__.co_firstlineno,
             'name': func.__qualname__}
     body = [s for s in fdef.body if not (isinstance(s, ast.Expr) and isinstance(getattr(s, 'value', None), ast.Constant))]
@@ -316,6 +318,8 @@ def analyse(func) -> dict:
                 info['seqtype'] = True
             elif name == 'expected_next':
                 info['expected_next'].append([a.value for a in node.args if isinstance(a, ast.Constant)])
+            elif name == 'expected':
+                info['expected'].append([a.value for a in node.args if isinstance(a, ast.Constant)])
         if isinstance(node, ast.Compare) and len(node.ops) == 1 and isinstance(node.ops[0], ast.NotEq):
             c = node.comparators[0]
             if isinstance(c, ast.Constant) and c.value in CLOSERS:
@@ -339,6 +343,47 @@ def analyse(func) -> dict:
     return info
 
 
+def analyse_arrow(func):
+    """led__arrow_operator: `self[:] = left, <specifier>` with `expression(s)` in every branch that parses the
+    specifier, then at top level `right = self.parser.expression(a)`, `right.expected('(')`, `self.append(right)`"""
+    fdef = _src_ast(func)
+
+    def is_expr_call(n):
+        return isinstance(n, ast.Call) and isinstance(n.func, ast.Attribute) and n.func.attr == 'expression'
+
+    def rbp_of(call):
+        arg = call.args[0] if call.args else None
+        for kw in call.keywords:
+            if kw.arg == 'rbp':
+                arg = kw.value
+        return 0 if arg is None else int(_eval(arg, func))
+
+    tops = [st for st in fdef.body if isinstance(st, ast.Assign) and len(st.targets) == 1
+            and isinstance(st.targets[0], ast.Name) and is_expr_call(st.value)]
+    if len(tops) != 1:
+        return None
+    name = tops[0].targets[0].id
+    opened, appended = None, False
+    for st in fdef.body:
+        if isinstance(st, ast.Expr) and isinstance(st.value, ast.Call) and isinstance(st.value.func, ast.Attribute):
+            c = st.value
+            if c.func.attr == 'expected' and isinstance(c.func.value, ast.Name) and c.func.value.id == name \
+                    and len(c.args) == 1 and isinstance(c.args[0], ast.Constant):
+                opened = c.args[0].value
+            if c.func.attr == 'append' and len(c.args) == 1 and isinstance(c.args[0], ast.Name) and c.args[0].id == name:
+                appended = True
+    if opened is None or not appended:
+        return None
+    try:
+        inner = {rbp_of(n) for n in ast.walk(fdef) if is_expr_call(n) and n is not tops[0].value}
+        arbp = rbp_of(tops[0].value)
+    except Exception:
+        return None
+    if len(inner) != 1:
+        return None
+    return {'srbp': inner.pop(), 'arbp': arbp, 'open': opened}
+
+
 def classify_led(sym: str, cls, base_led) -> dict:
     f = cls.led
     if f is base_led:
@@ -357,6 +402,9 @@ def classify_led(sym: str, cls, base_led) -> dict:
         return {'kind': 'bracket', 'close': CLOSERS[adv[-1]], 'empty_ok': a['empty_check'], 'ast': a}
     if len(ex) == 1 and ex[0] is not None and not [x for x in adv if x is not None] and 'nud' not in a['calls']:
         return {'kind': 'infix', 'rbp': ex[0], 'ast': a}
+    ar = analyse_arrow(f)
+    if ar is not None:
+        return dict(ar, kind='arrow', ast=a)
     return {'kind': 'other', 'why': f'expr={ex} advance={adv}', 'ast': a}
 
 
@@ -792,6 +840,30 @@ def probe_prefix_checks(ver: str, rows: list[dict]) -> None:
         nud['rhs'] = [] if len(acc) == len(firsts) else acc
 
 
+def probe_arrow(ver: str, rows: list[dict]) -> None:
+    """which first tokens the arrow led accepts for the function specifier (the operand kinds whose text is a
+    complete call are left out: the function-token branch of the led takes the name without parsing it)"""
+    group = next((r for r in rows if r['nud']['kind'] == 'group'), None)
+    for r in rows:
+        led = r['led']
+        if led['kind'] != 'arrow':
+            continue
+        g = next((x for x in rows if x['sym'] == led['open'] and x['nud']['kind'] == 'group'), None)
+        if g is None:
+            r['led'] = {'kind': 'other', 'why': f'arrow: no group symbol {led["open"]!r}'}
+            continue
+        led['g'] = g['idx']
+        # first identity of each kind (for prefixed names: not `x:map` / `x:array`, see out_of_fragment)
+        firsts = {atom_code(kk): atom_text(kk, atom_ids(ver, kk)[0]) for kk in atom_kind_list(ver) if kk < 9}
+        if group is not None:
+            firsts[op_code(group['idx'])] = '( n9 )'
+        for rr in rows:
+            if rr['nud']['kind'] == 'prefix':
+                firsts[op_code(rr['idx'])] = f'{rr["sym"]} n9'
+        led['start'] = [c for c, txt in sorted(firsts.items())
+                        if not is_err(impl_parse(ver, f'n1 {r["sym"]} {txt} ( )')[0])]
+
+
 def lean_list(l) -> str:
     return '[' + ', '.join(str(x) for x in l) + ']'
 
@@ -805,6 +877,8 @@ def lean_row(r: dict) -> str:
         L = f'.typed {lean_list(led["deny"])}'
     elif k == 'bracket':
         L = f'.bracket {led["close"]} {"true" if led["empty_ok"] else "false"} {lean_list(led["deny"])}'
+    elif k == 'arrow':
+        L = f'.arrow {led["srbp"]} {led["arbp"]} {lean_list(led["start"])} {led["g"]}'
     elif k == 'none':
         L = '.none'
     else:
@@ -833,6 +907,7 @@ def tables() -> dict[str, list[dict]]:
             rows = table_rows(v)
             probe_guards(v, rows)
             probe_prefix_checks(v, rows)
+            probe_arrow(v, rows)
             _tables_cache[v] = rows
     return _tables_cache
 
@@ -848,7 +923,7 @@ def translate(run: Run) -> dict:
         out.append(']')
         out.append('')
         info[f'v{v}'] = {'rows': len(rows),
-                         'modelled': sum(1 for r in rows if r['led']['kind'] in ('infix', 'typed', 'bracket')),
+                         'modelled': sum(1 for r in rows if r['led']['kind'] in ('infix', 'typed', 'bracket', 'arrow')),
                          'other_led': [r['sym'] for r in rows if r['led']['kind'] == 'other'],
                          'guard_mismatch': {r['sym']: r['led']['guard_mismatch'] for r in rows
                                             if r['led'].get('guard_mismatch')}}
@@ -879,6 +954,7 @@ class VInfo:
         self.infix = [r['idx'] for r in rows if r['led']['kind'] == 'infix']
         self.typed = [r['idx'] for r in rows if r['led']['kind'] == 'typed']
         self.bracket = [r['idx'] for r in rows if r['led']['kind'] == 'bracket']
+        self.arrow = [r['idx'] for r in rows if r['led']['kind'] == 'arrow']
         self.prefix = [r['idx'] for r in rows if r['nud']['kind'] == 'prefix']
         self.group = [r['idx'] for r in rows if r['nud']['kind'] == 'group']
         self.sym = {r['idx']: r['sym'] for r in rows}
@@ -929,10 +1005,31 @@ def gen_tree(rng, V: VInfo, size: int):
             return ('b', f, ('b', V.idx[rng.choice(follow)], left, gen_atom(rng, V)), gen_atom(rng, V)) \
                 if rng.random() < 0.3 else ('occ2', f, left, gen_atom(rng, V))
         return ('b', f, left, gen_atom(rng, V))
-    if r < 0.84 and V.typed:
+    if r < 0.84 and V.typed and not (V.arrow and r >= 0.82):
         o = rng.choice(V.typed)
         n = rng.choice(type_ids(V.ver, V.sym[o]))
         return ('t', o, gen_tree(rng, V, size - 1), n)
+    if r < 0.84 and V.arrow and V.group:
+        # arrow: `l => f ( args )`, f a name / variable / prefixed name / parenthesised expression; sometimes the lax
+        # forms the led accepts (a lookup on the specifier, a second argument list)
+        o = rng.choice(V.arrow)
+        g = V.group[0]
+        gc = V.rows[g]['nud']['close']
+        fs, as_ = rng.randrange(max(1, size // 3)), rng.randrange(max(1, size // 2))
+        q = rng.random()
+        if q < 0.75:
+            k = rng.choice([0, 0, 2, 2, 8])
+            f = ('a', k, rng.choice(atom_ids(V.ver, k)))
+        elif q < 0.9:
+            f = ('g', g, gc, gen_tree(rng, V, fs))
+        elif q < 0.96 and '?' in V.idx:
+            f = ('b', V.idx['?'], ('a', 2, rng.choice(atom_ids(V.ver, 2))), ('a', 0, rng.choice(atom_ids(V.ver, 0))))
+        else:
+            f = gen_atom(rng, V)
+        args = ('g', g, gc, gen_tree(rng, V, as_) if rng.random() < 0.8 else None)
+        if rng.random() < 0.06:
+            args = ('x', g, gc, args, gen_tree(rng, V, 0))
+        return ('ar', o, gen_tree(rng, V, max(0, size - 1 - fs - as_)), f, args)
     if r < 0.96 and V.bracket:
         o = rng.choice(V.bracket)
         row = V.rows[o]
@@ -970,7 +1067,9 @@ def unparse(rng, V: VInfo, t, paren: float) -> list:
         if k == 'x':
             return wrap(t[3]) + [('o', t[1])] + (go(t[4]) if t[4] is not None else []) + [('c', t[2])]
         if k == 'g':
-            return [('o', t[1])] + go(t[3]) + [('c', t[2])]
+            return [('o', t[1])] + (go(t[3]) if t[3] is not None else []) + [('c', t[2])]
+        if k == 'ar':
+            return wrap(t[2]) + [('o', t[1])] + go(t[3]) + go(t[4])
         raise ValueError(t)
     return go(t)
 
@@ -1005,6 +1104,20 @@ def out_of_fragment(V: VInfo, toks: list) -> str | None:
 
 def out_of_fragment_(V: VInfo, toks: list) -> str | None:
     """token-level patterns that the level table does not describe (documented in docs/C04.md)"""
+    seen_arrow = False
+    for a, b in zip(toks, toks[1:] + [None]):
+        if a[0] == 'o' and a[1] in V.arrow:
+            seen_arrow = True
+            if b is not None and b[0] == 'a' and b[1] == 7:
+                return 'arrow-keyword-function-name'   # `x => div(1)`: valid EQName, the led wants a (name) token
+            if b is not None and b[0] == 'a' and b[1] >= 9:
+                return 'arrow-call-atom'               # the operand's text is a call: its name is the specifier
+            if b is not None and b[0] == 'a' and b[1] == 8 and atom_text(8, b[2]).split(':')[1] in ('map', 'array'):
+                return 'arrow-map-array-name'          # `x => p:map()`: valid EQName, rejected (token pattern of `map(`)
+        elif seen_arrow and b is not None and b[0] == 'a' and a[0] in ('a', 'c', 't'):
+            # `x => $f $g(1)`: two operands side by side (invalid everywhere); after an arrow specifier the real
+            # parser fails in the `led` of `$` / in the static call, the model goes on to the argument list
+            return 'juxtaposed-operands-after-arrow'
     for i, t in enumerate(toks):
         # `?` directly after `(` or `,` without a key specifier is taken as an argument placeholder by the parser
         # (LookupOperatorToken.__init__ zeroes lbp there and nud returns the bare token): accepted although not in the
@@ -1022,6 +1135,8 @@ def out_of_fragment_(V: VInfo, toks: list) -> str | None:
     for a, b in zip(toks, toks[1:]):
         if a[0] == 't' and b[0] == 'o' and V.sym[b[1]] == '?' and (a[1] % 4 != 0 or a[1] // 4 == 0):
             return 'lookup-after-type'               # `T? ? k`: outside the EBNF; accepted or not depending on the kind of type
+        if a[0] == 't' and b[0] == 'a' and b[1] in (6, 7):
+            return 'operator-spelling-after-type'    # `T? eq`, `T+ *`: the atom's text is an operator in this position
         if a[0] == 't' and (b[0] == 'o' and V.sym[b[1]] == '(' or b[0] == 'a' and b[1] == 11):
             return 'type-followed-by-parenthesis'    # `xs:string (` is tokenised as a constructor call
         if b[0] == 'o' and V.sym[b[1]] == '(' and a[0] == 'a' and a[1] != 2:
@@ -1106,8 +1221,6 @@ def compare_tokens(run: Run, cases: list[tuple[str, list]], origin: str = 'gen')
         if ci != cs:
             run.disagree(Disagreement(case, ci, cm, cs, what='tree-vs-ebnf', site='Parser.expression / led / nud',
                                       tags=a['trig']))
-        elif ci != cm and 'F04j' in a['trig']:
-            st.count('model-tie-skipped:F04j')     # the model has the repaired occurrence-indicator rule (finding F04j)
         elif ci != cm:
             run.disagree(Disagreement(case, ci, cm, cs, what='model', site='operator table'))
         opaque = any(t[0] == 'a' and t[1] >= 7 for t in toks)      # operands whose text the Lean model does not render
@@ -1125,7 +1238,7 @@ def compare_tokens(run: Run, cases: list[tuple[str, list]], origin: str = 'gen')
                 run.disagree(Disagreement(dict(case, real_source=real_src), real_src, a['src'], what='source-text-model',
                                           site='XPathToken.source'))
         if tok is not None:
-            roundtrip(run, ver, src, tok, impl, extra=[f for f in a['trig'] if f == 'F04j'])
+            roundtrip(run, ver, src, tok, impl)
 
 
 # ------------------------------------------------------------------- (ii) source round trip
@@ -1300,19 +1413,8 @@ def trig_f04i(src: str) -> bool:
     return False
 
 
-def trig_f04k(src: str) -> bool:
-    """trigger of finding F04k: the text of a comment ends with a colon (`(:::)`, `(: a::)`)"""
-    return '::)' in src
-
-
-def trig_f04l(src: str) -> bool:
-    """trigger of finding F04l: comments stand between `(` or `,` and a `?`"""
-    import re
-    return re.search(r'[(,]\s*(\(:[^()]*:\)\s*)+\?', src) is not None
-
-
 def comment_tags(src: str) -> list:
-    return [f for f, t in (('F04i', trig_f04i), ('F04k', trig_f04k), ('F04l', trig_f04l)) if t(src)]
+    return ['F04i'] if trig_f04i(src) else []
 
 
 def keyword_prefix_pass(run: Run) -> None:
@@ -1330,7 +1432,7 @@ def keyword_prefix_pass(run: Run) -> None:
                 st.count('keyword-prefix')
                 if got != want:
                     run.disagree(Disagreement({'version': v, 'source': src}, got, None, want, what='hand-written-tree',
-                                              site='PrefixedNameToken.__init__', tags=['F04m']))
+                                              site='PrefixedNameToken.__init__'))
 
 
 def whitespace_pass(run: Run, cases: list[tuple[str, list]]) -> None:
@@ -1387,7 +1489,7 @@ COMMENT_WITNESSES = [('20', 'count(n1)', f'count {_DEEP5} (n1)'), ('20', 'child:
                     ('31', "1 cast as xs:string = ('1')", "1 cast as xs:string (: x :) = (: y :) ('1')"),
                     ('20', 'n1 + (n2)', 'n1 (: a :) + (: b :) (n2)'),
                     ('20', 'child::n1 = n2', 'child (: a :) :: n1 = n2 (: b :)'),
-                    # comment bodies that end in a colon (F04k), a comment between `(` / `,` and a placeholder (F04l)
+                    # comment bodies that end in a colon (fixed F04k), a comment between `(` / `,` and a placeholder (fixed F04l)
                     ('20', '1 + 2', '1 (:::) + 2'), ('20', '1 + 2', '(: a::) 1 + (::::) 2 (: (:::) ::)'),
                     ('20', 'n1', '(: x :) (: y :) n1 (: z :)'), ('31', '$v1(?, 1)', '$v1((: c :) ?, 1)'),
                     ('31', '$v1(1, ?)', '$v1(1, (: c :) (: d :) ?)'), ('31', '$v1(?, 1)', '$v1(? (: c :), 1)'),
@@ -1916,8 +2018,7 @@ EXPECTED = [
     ('30', 'n1(1)', 'ERR:XPST0017'),
     ('10', '-a | b', '(- (| (a) (b)))'), ('10', '-a * b', '(* (- (a)) (b))'), ('10', '-a div b', '(div (- (a)) (b))'),
     # occurrence indicators (XPath 2.0 A.1.2 "occurrence-indicators": a `?`, `*`, `+` directly after a sequence type
-    # is its indicator; `empty-sequence()` takes none; SingleType takes only `?`).  The F04j cases (`item()* * 2`,
-    # `array(*)+ + 1`) are generated, not listed here, until fix-c04-4 is picked.
+    # is its indicator; `empty-sequence()` takes none; SingleType takes only `?`); the last three lines are the cases of fixed F04j
     ('20', '() treat as empty-sequence() * 2', '(* (treat () (empty-sequence)) (2))'),
     ('20', 'n instance of empty-sequence() * 2', '(* (instance (n) (empty-sequence)) (2))'),
     ('20', 'n instance of empty-sequence() + 2', '(+ (instance (n) (empty-sequence)) (2))'),
@@ -1934,6 +2035,9 @@ EXPECTED = [
     ('20', 'n instance of xs:integer * 2', 'ERR:XPST0003'), ('20', 'n instance of xs:integer + 2', 'ERR:XPST0003'),
     ('20', 'n instance of empty-sequence()*', 'ERR:XPST0003'), ('20', 'n treat as empty-sequence()?', 'ERR:XPST0003'),
     ('20', 'n instance of xs:integer* *', 'ERR:XPST0003'), ('20', '1 cast as xs:integer+', 'ERR:XPST0003'),
+    ('20', 'n instance of item()* * 2', '(* (instance (n) (item)) (2))'), ('20', '1 treat as item()+ + 2', '(+ (treat (1) (item)) (2))'),
+    ('20', 'n treat as node()? + + 2', '(+ (treat (n) (node)) (+ (2)))'), ('20', 'n instance of element()* * 2', '(* (instance (n) (element)) (2))'),
+    ('31', 'n instance of array(*)+ + 1', '(+ (instance (n) (array (*))) (1))'), ('31', 'n instance of map(*)* * 2', '(* (instance (n) (map (*))) (2))'),
 ]
 
 # sequence types whose text must come back unchanged from `source` (the occurrence indicator is not visible in `tree`)
